@@ -13,31 +13,29 @@
 -/
 namespace Influx.Meta
 
-abbrev Time := Int
-abbrev Dur := Int
 
 /-- `time.Time{}`: 0001-01-01T00:00:00Z = −62135596800 s before the Unix epoch. -/
-def zeroTime : Time := -62135596800000000000
+def zeroTime : Int := -62135596800000000000
 
 /-- two's-complement wrap of an integer into int64 -/
 def wrap64 (x : Int) : Int := (BitVec.ofInt 64 x).toInt
 
 namespace Time
 /-- `t.Before(u)` -/
-def Before (t u : Time) : Bool := decide (t < u)
+def Before (t u : Int) : Bool := decide (t < u)
 /-- `t.After(u)` -/
-def After (t u : Time) : Bool := decide (t > u)
+def After (t u : Int) : Bool := decide (t > u)
 /-- `t.IsZero()` -/
-def IsZero (t : Time) : Bool := t == zeroTime
+def IsZero (t : Int) : Bool := t == zeroTime
 /-- `t.UnixNano()` (int64 arithmetic: wraps outside 1677-09-21 … 2262-04-11) -/
-def UnixNano (t : Time) : Int := wrap64 t
+def UnixNano (t : Int) : Int := wrap64 t
 /-- `t.Add(d)` -/
-def Add (t : Time) (d : Dur) : Time := t + d
+def Add (t : Int) (d : Int) : Int := t + d
 /-- `t.Truncate(d)`: round down to a multiple of `d` since the zero time; `d ≤ 0` returns `t`. -/
-def Truncate (t : Time) (d : Dur) : Time :=
+def Truncate (t : Int) (d : Int) : Int :=
   if d ≤ 0 then t else t - (t - zeroTime) % d
 /-- `time.Unix(0, v)` -/
-def Unix (v : Int) : Time := v
+def Unix (v : Int) : Int := v
 end Time
 
 /-- `meta.ShardInfo`: id and the node ids of its owners -/
@@ -49,19 +47,19 @@ deriving Repr, DecidableEq, Inhabited
 /-- `meta.ShardGroupInfo` (field names as in Go: the generated predicates select them) -/
 structure ShardGroupInfo where
   ID : Nat
-  StartTime : Time
-  EndTime : Time
-  DeletedAt : Time
+  StartTime : Int
+  EndTime : Int
+  DeletedAt : Int
   Shards : List ShardInfo
-  TruncatedAt : Time
+  TruncatedAt : Int
 deriving Repr, DecidableEq, Inhabited
 
 /-- `meta.RetentionPolicyInfo` (subscriptions omitted) -/
 structure RetentionPolicyInfo where
   Name : String
   ReplicaN : Int
-  Duration : Dur
-  ShardGroupDuration : Dur
+  Duration : Int
+  ShardGroupDuration : Int
   ShardGroups : List ShardGroupInfo
 deriving Repr, DecidableEq, Inhabited
 
